@@ -1,6 +1,179 @@
-import Driver.Common
-namespace Rtp.Kinds.Pktz
-open Rtp Rtp.Proto
+/-
+  Driver/Kinds/Pktz.lean — case kinds of group `pktz`: C07 (sequencer) and C06 (packetizer).
 
-def handlers : List (String × Handler) := []
+  c07.run    <f s | r r0> <ops: string of n/r, `-` = none>  =>  <count> <result>*
+  c07.hist   <start> <goroutines> <fnv of the observation, for the distinct-case count>  =>  <count> (<g> <n|r> <before> <after> <result>)*
+  c07.synth / c07.synthbad   as c07.hist, on synthesized histories (self-test of the checker:
+             linearizable by construction must be accepted, corrupted ones rejected)
+  c07.synthsmall  random histories of ≤ 7 calls: the greedy search must agree with brute force
+             (`wf` reports how many of them are linearizable)
+  c07.randstart <n>  =>  <n> <min> <max>   first values of n fresh random sequencers
+  c07.race   go-run-race  =>  <ran> <race reported> <wrong final count>   (stress under `go run -race`)
+  c07.facts  sequencer.go  =>  <6 bools> <maxInitialRandomSequenceNumber>
+
+  c06.hist   <mtu> <pt> <ssrc> <ts0> <seqStart> <payloader name> <n> op*  =>  <n> opobs*
+     op    = P <payload> <samples> <now:int64 unix ns> <k> <fragment>*     (fragments = what the real
+                                                    payloader returned at this call; the model's `pay`)
+           | S <skipped> | G <count> | E <id>
+     opobs = P (none | some <budget> <payloadSame>) <k> pkt* | S | G <k> pkt* | E
+     pkt   = <version> <P> <X> <M> <pt> <seq> <ts> <ssrc> <#csrc> <k> (<id> <bytes>)* <payload>
+             <PaddingSize> <MarshalSize> <res bytes: Marshal> <roundtrip>
+-/
+import Driver.Common
+import Rtp.Model.Sequencer
+import Rtp.Pred.C07
+import Rtp.Model.Packetizer
+import Rtp.Pred.C06
+namespace Rtp.Kinds.Pktz
+open Rtp Rtp.Proto Rtp.Model Rtp.Spec.Counter
+
+/-- tail-recursive `Rd.rep` (histories of 10^5 calls must not use the C stack) -/
+def repTR {α} (r : Rd α) (n : Nat) : Rd (List α) := fun s => go n s #[]
+where
+  go : Nat → List String → Array α → Option (List α × List String)
+    | 0, s, acc => some (acc.toList, s)
+    | n + 1, s, acc => match r s with
+      | none => none
+      | some (a, s') => go n s' (acc.push a)
+
+def listTR {α} (r : Rd α) : Rd (List α) := do let n ← Rd.nat; repTR r n
+
+def rdOp : Rd Op := do
+  let t ← Rd.tok
+  match t with | "n" => pure .next | "r" => pure .roc | _ => Rd.fail
+
+/-- a program as one token: a string over {n, r}; `-` is the empty program -/
+def rdOps : Rd (List Op) := do
+  let t ← Rd.tok
+  if t == "-" then pure [] else
+  let l := t.toList
+  if l.all (fun c => c == 'n' || c == 'r') then pure (l.map fun c => if c == 'n' then Op.next else Op.roc)
+  else Rd.fail
+
+def rdStart : Rd Pred.C07.Start := do
+  let t ← Rd.tok
+  match t with
+  | "f" => do let s ← Rd.u16; pure (.fixed s)
+  | "r" => do let r ← Rd.nat; pure (.random r)
+  | _ => Rd.fail
+
+def c07run : Handler :=
+  mkHandler (do let s ← rdStart; let o ← rdOps; pure (s, o)) (listTR Rd.nat)
+    (fun (s, ops) => s.state.run ops)
+    (fun (s, ops) o => Pred.C07.runOk s ops o)
+    (fun (s, _) => s.wf)
+
+def rdCall : Rd Pred.C07.Call := do
+  let g ← Rd.nat; let op ← rdOp; let b ← Rd.nat; let a ← Rd.nat; let r ← Rd.nat
+  pure { g := g, op := op, before := b, after := a, res := r }
+
+/-- no model observation to compare with (the schedule is not an input): `corr` is vacuous, the
+    verdict is the linearizability check of what the real code did -/
+def c07hist : Handler := fun inp obs =>
+  match (do let s ← Rd.u16; let n ← Rd.nat; let _ ← Rd.nat; Rd.done; pure (s, n) : Rd (UInt16 × Nat)) inp,
+        (do let h ← listTR rdCall; Rd.done; pure h : Rd (List Pred.C07.Call)) obs with
+  | some ((s, _), _), some (h, _) =>
+    some { corr := true, pred := Pred.C07.linearizable (SeqState.newFixed s) h }
+  | _, _ => none
+
+/-- self-test of the checker: corrupted histories must be rejected -/
+def c07histBad : Handler := fun inp obs =>
+  match c07hist inp obs with
+  | some v => some { v with pred := !v.pred }
+  | none => none
+
+/-- self-test of the checker on tiny histories: the greedy search agrees with brute force -/
+def c07histSmall : Handler := fun inp obs =>
+  match (do let s ← Rd.u16; let n ← Rd.nat; let _ ← Rd.nat; Rd.done; pure (s, n) : Rd (UInt16 × Nat)) inp,
+        (do let h ← listTR rdCall; Rd.done; pure h : Rd (List Pred.C07.Call)) obs with
+  | some ((s, _), _), some (h, _) =>
+    if h.length > 8 then none else
+    let a := Pred.C07.linearizable (SeqState.newFixed s) h
+    let b := Pred.C07.linearizableBrute (SeqState.newFixed s) h
+    some { corr := true, pred := a == b, wf := b }
+  | _, _ => none
+
+def rdFacts : Rd Pred.C07.Facts := do
+  let a ← Rd.bool; let b ← Rd.bool; let c ← Rd.bool; let d ← Rd.bool; let e ← Rd.bool; let f ← Rd.bool
+  let m ← Rd.nat
+  pure { nextLocksFirst := a, nextDefersUnlock := b, rocLocksFirst := c, rocDefersUnlock := d,
+         noOtherLockOps := e, fieldsPrivate := f, maxInitialRandom := m }
+
+def c07facts : Handler :=
+  mkHandler Rd.tok rdFacts
+    (fun _ => { nextLocksFirst := true, nextDefersUnlock := true, rocLocksFirst := true,
+                rocDefersUnlock := true, noOtherLockOps := true, fieldsPrivate := true,
+                maxInitialRandom := SeqState.maxInitialRandom })
+    (fun _ o => Pred.C07.factsOk o)
+
+/-! ### C06 -/
+
+def rdPkt : Rd PktObs := do
+  let v ← Rd.nat; let p ← Rd.bool; let x ← Rd.bool; let m ← Rd.bool
+  let pt ← Rd.u8; let seq ← Rd.u16; let ts ← Rd.u32; let ssrc ← Rd.u32; let cc ← Rd.nat
+  let exts ← Rd.list (do let id ← Rd.u8; let b ← Rd.bytes; pure (id, b))
+  let payload ← Rd.bytes; let ps ← Rd.nat; let ms ← Rd.nat
+  let mar ← Rd.resC Rd.bytes; let rt ← Rd.bool
+  pure { version := v, padding := p, extension := x, marker := m, pt := pt, seq := seq, ts := ts,
+         ssrc := ssrc, csrcCount := cc, exts := exts, payload := payload, paddingSize := ps,
+         marshalSize := ms, marshal := mar, roundtrip := rt }
+
+def rdPkOp : Rd PkOp := do
+  let t ← Rd.tok
+  match t with
+  | "P" => do
+    let payload ← Rd.bytes; let samples ← Rd.u32; let now ← Rd.i64
+    let frags ← Rd.list Rd.bytes
+    pure (.packetize (fun _ _ => frags) payload samples now)
+  | "S" => do let n ← Rd.u32; pure (.skip n)
+  | "G" => do let n ← Rd.u32; pure (.padding n)
+  | "E" => do let v ← Rd.int; pure (.enableAbs v)
+  | _ => Rd.fail
+
+def rdPkOpObs : Rd PkOpObs := do
+  let t ← Rd.tok
+  match t with
+  | "P" => do
+    let c ← Rd.opt (do let b ← Rd.u16; let s ← Rd.bool; pure (b, s))
+    let pkts ← listTR rdPkt
+    pure (.packetize c pkts)
+  | "S" => pure .skip
+  | "G" => do let pkts ← listTR rdPkt; pure (.padding pkts)
+  | "E" => pure .enableAbs
+  | _ => Rd.fail
+
+def rdPkInput : Rd (Packetizer × List PkOp) := do
+  let mtu ← Rd.u16; let pt ← Rd.u8; let ssrc ← Rd.u32; let ts ← Rd.u32; let s ← Rd.u16
+  let _name ← Rd.tok
+  let ops ← Rd.list rdPkOp
+  pure ({ mtu := mtu, pt := pt, ssrc := ssrc, ts := ts, seq := SeqState.newFixed s, absId := 0 }, ops)
+
+def c06hist : Handler :=
+  mkHandler rdPkInput (Rd.list rdPkOpObs)
+    (fun (cfg, ops) => cfg.run ops)
+    (fun (cfg, ops) o => Pred.C06.histOk cfg ops o)
+    (fun (cfg, ops) => Pred.C06.wf cfg ops)
+
+/-- `c07.race go-run-race => <ran> <race reported> <wrong final count>`: the stress program under
+    the Go race detector; nothing may be reported (when the detector cannot be run: vacuous) -/
+def c07race : Handler :=
+  mkHandler Rd.tok (do let a ← Rd.bool; let b ← Rd.bool; let c ← Rd.bool; pure (a, b, c))
+    (fun _ => (true, false, false))
+    (fun _ o => !o.2.1 && !o.2.2)
+    (fun _ => true)
+    (fun _ o => if o.1 then none else some "race-detector-unavailable")
+
+/-- `c07.randstart <n> => <n> <min first value> <max first value>` of n fresh NewRandomSequencer()s.
+    No model observation (the generator is the implementation's): only the predicate applies. -/
+def c07randstart : Handler := fun inp obs =>
+  match (do let n ← Rd.nat; Rd.done; pure n : Rd Nat) inp,
+        (do let n ← Rd.nat; let a ← Rd.nat; let b ← Rd.nat; Rd.done; pure (n, a, b) : Rd (Nat × Nat × Nat)) obs with
+  | some (n, _), some ((m, a, b), _) =>
+    some { corr := n == m, pred := Pred.C07.randStartOk { n := m, minFirst := a, maxFirst := b } }
+  | _, _ => none
+
+def handlers : List (String × Handler) :=
+  [("c07.run", c07run), ("c07.hist", c07hist), ("c07.facts", c07facts), ("c07.synth", c07hist),
+   ("c07.synthbad", c07histBad), ("c07.synthsmall", c07histSmall), ("c07.race", c07race), ("c07.randstart", c07randstart),
+   ("c06.hist", c06hist)]
 end Rtp.Kinds.Pktz
